@@ -17,11 +17,11 @@ Definition toks_of_line (args : list prim) (k : kwd) : list tok := List.map TObj
    returns; the token loop runs on the shared lexer / parser models (Content/Bytes.v) *)
 Definition run_ops_parse_bytes (fs : list bytes) : res (list bytes) :=
   match fs with
-  | [data] => do ops <- parse_bytes_raw data; Ok (enc_ops ops)
-  | [] => do ops <- parse_bytes_raw []; Ok (enc_ops ops)
+  | [data] => do ops <- parse_bytes data; Ok (enc_ops ops)
+  | [] => do ops <- parse_bytes []; Ok (enc_ops ops)
   | _ => Err E_CANON
   end.
 
 (* serialize_ops, then parse_ops on the bytes written (the implementation's ops_roundtrip) *)
 Definition run_ops_roundtrip (fs : list bytes) : res (list bytes) :=
-  do ops <- dec_ops fs; do b <- ser_ops ops; do ops' <- parse_bytes_raw b; Ok (enc_ops ops').
+  do ops <- dec_ops fs; do b <- ser_ops ops; do ops' <- parse_bytes b; Ok (enc_ops ops').
